@@ -19,11 +19,15 @@ func VH_C12_snps_sched() {
 		vAssert("C12.snps.no-error", err == nil)
 		return string(w.buf)
 	}
-	base := run()
+	// the explored run comes first, on fresh package state (a lazily grown buffer or a cache warmed by an
+	// earlier run would hide what the first concurrent run does); the reference run follows
 	vNumCPU(1 + vChoice("ncpu", vParam("NCPU")+1))
 	vRaceDetect()
 	vSchedExplore(vParam("DEV"))
-	vAssert("C12.snps.output-independent-of-schedule", run() == base)
+	got := run()
+	vSchedExplore(0)
+	vNumCPU(vParam("NCPU"))
+	vAssert("C12.snps.output-independent-of-schedule", got == run())
 }
 
 // VH_C12_snps_arrival: the re-ordering writer restores input order for every arrival order of the records.
